@@ -23,6 +23,7 @@ VARIANT_WORKER_SHARE = {'bare': 0.75, 'predefined': 0.25}
 MAX_OPS = 40
 
 DECL_INTENTS = ['base_type', 'derived_type', 'dup_dimension', 'scaled_unit',
+                'alias_unit',
                 'term_unit', 'wrong_dim_term', 'derive_unit', 'derive_bad',
                 'plain_unit', 'currency_reg', 'currency_new', 'dup_symbol',
                 'empty_symbol', 'wrong_type_scaled']
@@ -43,6 +44,7 @@ def gen(seed, run, tier='quick'):
         'base_type': 2, 'derived_type': rng.choice([2, 4]),
         'dup_dimension': rng.choice([1, 2, 4]),
         'scaled_unit': rng.choice([2, 4]), 'term_unit': rng.choice([1, 2]),
+        'alias_unit': rng.choice([0, 1]),
         'wrong_dim_term': rng.choice([0, 1, 2]),
         'derive_unit': rng.choice([1, 2]), 'derive_bad': rng.choice([0, 1]),
         'plain_unit': 1, 'currency_reg': rng.choice([1, 2]),
